@@ -781,6 +781,7 @@ func genC03(c *Ctx) {
 			}
 		}
 	}
+	deepProbes(c)
 	bad("Satisfies", map[string]interface{}{"expression": "MIT", "allowed": nil}, c.S("MIT", nil))
 	bad("Satisfies", map[string]interface{}{"expression": "", "allowed": nil}, c.S("", nil))
 	bad("ValidateLicenses", []string{}, c.L(nil))
